@@ -87,6 +87,16 @@ def cnt_depth(p, res):
     for fq, cexpr in COUNTERS:
         f = p.func(fq)
         n = 0
+        # a plain local counter may have been renamed: it is the one local that is both incremented and decremented by augmented assignment
+        if cexpr.isidentifier() and cexpr not in f.locals:
+            ups = {src_of(st.target) for st in f.body_nodes() if isinstance(st, ast.AugAssign) and isinstance(st.op, ast.Add) and isinstance(st.target, ast.Name)}
+            downs = {src_of(st.target) for st in f.body_nodes() if isinstance(st, ast.AugAssign) and isinstance(st.op, ast.Sub) and isinstance(st.target, ast.Name)}
+            both = sorted(ups & downs)
+            if len(both) == 1:
+                cexpr = both[0]
+            else:
+                res.undecided('%s: depth counter' % f.short, 'the reviewed counter `%s` is gone and no single local is both incremented and decremented' % cexpr)
+                continue
         for st in f.body_nodes():
             if isinstance(st, ast.AugAssign) and src_of(st.target) == cexpr:
                 n += 1
@@ -105,7 +115,7 @@ def cnt_depth(p, res):
                 else:
                     res.bad(F('CNT-DEPTH', f, st, src_of(st), 'depth counter %s is overwritten instead of counted: nesting deeper than one level is lost' % cexpr))
         if n == 0:
-            raise AnalysisError('CNT-DEPTH: counter %s not found in %s' % (cexpr, fq))
+            res.undecided('%s: depth counter %s' % (f.short, cexpr), 'no counting statement found')
     # literal(): the closing brace test compares the running depth with the depth at entry
     f = p.func('abbreviation.tokenizer.literal')
     s = src_of(f.node)
@@ -167,6 +177,8 @@ def classify_branch(p, f, env, void):
 
     for st in f.node.body:
         if isinstance(st, ast.Expr) and isinstance(st.value, ast.Constant):
+            continue
+        if isinstance(st, (ast.Nonlocal, ast.Global)):
             continue
         if not isinstance(st, ast.If):
             raise AnalysisError('SIB-VOID: unrecognised statement in %s: %s' % (f.short, src_of(st).split('\n')[0]))
